@@ -26,6 +26,12 @@ TU = "scriptplan/_cython/time_utils_cy.pyx"
 MP = "scriptplan/parser/macro_processor.py"
 
 MUTANTS = [
+    # ------------------------------------------------------------------ revert of repaired defect F74 (C11)
+    ("c11_horizon_estimate_unguarded", "C11", [(PJ, "        try:\n            min_end_date = self.attributes[\"start\"] + timedelta(days=total_days_needed)\n        except OverflowError:\n            return\n", "        min_end_date = self.attributes[\"start\"] + timedelta(days=total_days_needed)\n")]),
+    # ------------------------------------------------------------------ revert of repaired defect F73 (C09)
+    ("c09_priority_zero_accepted", "C09", [(TP, "        if not 1 <= priority <= 1000:", "        if not 0 <= priority <= 1000:")]),
+    # ------------------------------------------------------------------ revert of repaired defect F71 (C11)
+    ("c11_scenario_duration_stored_as_text", "C11", [(TP, "                        if attr_key in (\"duration\", \"length\"):\n", "                        if attr_key in ():\n")]),
     # ------------------------------------------------------------------ revert of repaired defect F70 (C19)
     ("c19_stdin_empty_by_text_strip", "C19", [(PL, "            if not stdin_bytes.strip():", "            if not stdin_bytes.decode(\"utf-8\").strip():")]),
     ("c20_output_dir_env_first", "C20", [(MN, "        output_dir = self.args.output_dir or \"./\"", "        output_dir = os.environ.get(\"PLAN_OUTPUT_DIR\", self.args.output_dir or \"./\")")]),
